@@ -124,6 +124,9 @@ Section Parser.
        i = len(stack); while i > 0 and isinstance(stack[i-1], TypeInstance): i -= 1
        if 0 < i < len(stack) and stack[i-1] is not Product and it is an operator/alias:
            stack[i-1:] = [stack[i-1] applied to stack[i:]]                                *)
+  (* The scan is bounded by the stack: when only instances are left ([rest] = [], the
+     code's i = 0, e.g. after an unmatched `)` has consumed the bottom None) nothing is
+     applied and stack[i-1] is not read -- `while i > 0 and ...`, `if 0 < i < len(stack)`. *)
   Fixpoint split_insts (s : list titem) (acc : list pty) : list pty * list titem :=
     match s with
     | TInst t :: r => split_insts r (t :: acc)      (* acc ends up in stack order, bottom first *)
